@@ -648,7 +648,9 @@ def backoff_iter(start, stop, count=None, factor=2.0, jitter=False):
         raise ValueError('expected stop >= start, not %r' % stop)
     if count is None:
         denom = start if start else 1
-        count = 1 + math.ceil(math.log(stop/denom, factor))
+        # with start == 0 and stop < 1 the log is negative (the value after
+        # 0 is already stop): there are no growth steps, not minus one
+        count = 1 + max(math.ceil(math.log(stop/denom, factor)), 0)
         count = count if start else count + 1
     if count != 'repeat' and count < 0:
         raise ValueError('count must be positive or "repeat", not %r' % count)
